@@ -7,7 +7,9 @@ From RU Require Import Base.Prelude Base.Utf8 Base.Utf8Facts Model.AsciiSet Gen.
   Proofs.C14_Set Proofs.C14_Enc Proofs.C14_Views Proofs.ListN
   Proofs.C05_Enc Proofs.C05_Parser Proofs.C05_Setters Proofs.C05_History Proofs.C05_Sharp Proofs.C05_Frag Proofs.C05_Query
   Proofs.C06_WFI Proofs.C06_FragQuery Proofs.C06_HostNone Proofs.C06_Host Proofs.C06_Path Proofs.C06_Main
-  Proofs.C05_Comp Proofs.C05_PathClean Proofs.C05_CompSteps Proofs.C05_CompHist.
+  Proofs.C05_Comp Proofs.C05_PathClean Proofs.C05_CompSteps Proofs.C05_CompHist
+  Proofs.C06_Path Proofs.C06_Segments Proofs.C04_ParseTotal Proofs.C03_ReachParts
+  Proofs.C05_ParseUI Proofs.C05_ParseAll Proofs.C05_CompSteps2 Proofs.C05_CompReach Proofs.C05_ParseEx.
 
 (* ================= 1. encoder alphabet ================= *)
 
@@ -271,8 +273,8 @@ Print Assumptions C05_path_states.
    F-C02-4), set_path with '?' / '#' into an opaque path (F-C02-3), a "//"-led result without marker or a
    marker in front of a path that is not "//"-led (F-C02-8, F-C03-5); arguments are &str (usv_list) and
    u16.  set_path on an opaque path needs no further exclusion (F-C06-6 is repaired: the path stays
-   opaque, C06_get_path_opaque).  NOT covered (gate False):
-   path_segments_mut sessions and the quirks setters set_host / set_hostname / set_port / set_pathname. *)
+   opaque, C06_get_path_opaque).  NOT covered by this theorem (gate False): path_segments_mut sessions and the
+   quirks setters set_host / set_hostname / set_port / set_pathname - see C05_components_step2 below. *)
 Theorem C05_components_step : forall dbg hp hpo hd u o u',
   CInv dbg u -> step_gate hd u o u' -> apply_op dbg hp hpo hd u o = Some u' ->
   CInv dbg u' /\ components_clean dbg u'.
@@ -305,14 +307,125 @@ Check C05_components_parse_opaque : forall dbg hp hpo hd ovr input u,
   parse_url dbg hp hpo hd ovr None input = POk u -> CInv dbg u /\ cannot_be_a_base u = Some true.
 Print Assumptions C05_components_parse_opaque.
 
-(* what is still open: CInv for parse results outside the opaque-input class (needs C02's L1 = wf_b of
-   every parse result, and the userinfo / path clauses of the parser's own writes and of the slices copied
-   from a base; C05_path_states is the path half of the former), the steps with gate False, and the host
-   clause *)
+(* The statement for EVERY parse result as it was first written: HostOK (host display inside 0x21..0x7E) as the
+   only hypothesis on the host functions and CInv as the only hypothesis on the base. *)
 Definition C05_components_parse_statement : Prop :=
   forall dbg hp hpo hd ovr base input u, HostOK hp hpo hd ->
     match base with Some b => CInv dbg b | None => True end ->
     parse_url dbg hp hpo hd ovr base input = POk u -> CInv dbg u.
+
+(* In that form it is FALSE of the model - not a defect of the crate: a Display for Host that prints ":" for a
+   domain satisfies HostOK, and with it "a://x" gives the record "a://:" which is not well-formed (the witness
+   of C03_reachability_statement_refuted; url::Host never prints such a text).  CInv contains wf_b, so the
+   statement needs C03's hypothesis HostWf (non-empty host text that does not start with ':' / '@' and does
+   not end with '/'; C09_host_model_ok discharges it for the host model) and C03's base_ok for the base. *)
+Theorem C05_components_parse_statement_refuted : ~ C05_components_parse_statement.
+Proof.
+  intros H. destruct parse_statement_witness as (u & Hp & Hn). apply Hn.
+  exact (H true _ _ _ None None _ u bad_host_ok I Hp).
+Qed.
+Check C05_components_parse_statement_refuted : ~ C05_components_parse_statement.
+Print Assumptions C05_components_parse_statement_refuted.
+
+(* the userinfo state (any input numbers): what parse_userinfo leaves behind "scheme://" is nothing, "un@" or
+   "un:pw@" with un and pw free of / : ; = @ [ \ ] ^ | ? # space dquote < > backtick { }, and username_end
+   points behind un *)
+Theorem C05_userinfo_state : forall st ser0 l ser1 ue rem,
+  parse_userinfo st ser0 l = POk (ser1, ue, rem) ->
+  exists un t, free D_USERINFO un /\ ue = nlen ser0 + nlen un /\ ser1 = ser0 ++ un ++ t
+    /\ (t = [] \/ t = [64] \/ exists pw, free D_USERINFO pw /\ t = [58] ++ pw ++ [64]).
+Proof. exact parse_userinfo_ui. Qed.
+Check C05_userinfo_state : forall st ser0 l ser1 ue rem,
+  parse_userinfo st ser0 l = POk (ser1, ue, rem) ->
+  exists un t, free D_USERINFO un /\ ue = nlen ser0 + nlen un /\ ser1 = ser0 ++ un ++ t
+    /\ (t = [] \/ t = [64] \/ exists pw, free D_USERINFO pw /\ t = [58] ++ pw ++ [64]).
+Print Assumptions C05_userinfo_state.
+
+(* CInv - hence all five clauses of the property text on the STORED slices - for EVERY record parse_url returns:
+   every scheme (file and drive letters included), with or without a base (absolute URLs and relative references
+   of every kind), ANY input numbers (no scalar-value condition), any encoding override, both build
+   configurations; the getters may be read with either build configuration (dbg').  Hypotheses: HostWf on the
+   host functions (needed for wf_b only - the clauses do not look at the host text) and, for a base,
+   CInv /\ base_ok (base_ok b = wf_b b, and a base with a special scheme is not cannot-be-a-base). *)
+Theorem C05_components_parse : forall dbg dbg' hp hpo hd ovr base input u, HostWf hp hpo hd ->
+  match base with Some b => CInv dbg' b /\ base_ok b = true | None => True end ->
+  parse_url dbg hp hpo hd ovr base input = POk u -> CInv dbg' u /\ components_clean dbg' u.
+Proof.
+  intros dbg dbg' hp hpo hd ovr base input u HW Hb Hp.
+  pose proof (parse_url_cinv dbg dbg' hp hpo hd ovr base input u HW Hb Hp) as K.
+  split; [exact K|]. destruct K as [[W _] C]. exact (comp_ok_components dbg' u W C).
+Qed.
+Check C05_components_parse : forall dbg dbg' hp hpo hd ovr base input u, HostWf hp hpo hd ->
+  match base with Some b => CInv dbg' b /\ base_ok b = true | None => True end ->
+  parse_url dbg hp hpo hd ovr base input = POk u -> CInv dbg' u /\ components_clean dbg' u.
+Print Assumptions C05_components_parse.
+
+(* the userinfo and path clauses alone need no hypothesis on the host functions at all.  up_ok u
+   (Proofs/C05_ParseUI.v): the slices [scheme_end+3, username_end) and [username_end+1, host_start-1) of the
+   serialization are free of the userinfo delimiters and a stored path that starts with '/' is free of
+   ? # space dquote < > backtick { };  base_c b = base_ok b /\ up_ok b. *)
+Theorem C05_userinfo_path_parse : forall dbg hp hpo hd ovr base input u,
+  match base with Some b => base_c b | None => True end ->
+  parse_url dbg hp hpo hd ovr base input = POk u -> up_ok u.
+Proof. exact parse_url_up. Qed.
+Check C05_userinfo_path_parse : forall dbg hp hpo hd ovr base input u,
+  match base with Some b => base_c b | None => True end ->
+  parse_url dbg hp hpo hd ovr base input = POk u -> up_ok u.
+Print Assumptions C05_userinfo_path_parse.
+
+(* ---- all 19 mutators.  step_gate2 hp hpo hd u o u' (Proofs/C05_CompReach.v) = step_gate, and for the steps
+   step_gate leaves out:
+     path_segments_mut session : the pushed segments are &str and path_gate (F-C02-8 / F-C03-5) holds;
+     quirks set_pathname       : the value is a &str, auth_end_ok and path_gate;
+     quirks set_port           : no condition (it is Url::set_port with the parsed number);
+     quirks set_hostname, Url::set_host(Some _) : host_gate = outside F-C03-5 (marker) and F-C02-4 (empty new
+                                 host over a stored port) - the hypothesis "forall h, host_disp_ok hd h" of
+                                 C05_components_step, which quantified over model values that no url::Host has,
+                                 is replaced by HostWf (hosts the parser returns);
+     quirks set_host           : host_gate and q_host_keeps_port (the value has no ':' part that parses as a
+                                 port).  GAP: quirks set_host with a port part (set_host_internal with a new
+                                 port has no frame lemma yet). *)
+Theorem C05_components_step2 : forall dbg hp hpo hd u o u', HostWf hp hpo hd ->
+  CInv dbg u -> step_gate2 hp hpo hd u o u' -> apply_op dbg hp hpo hd u o = Some u' ->
+  CInv dbg u' /\ components_clean dbg u'.
+Proof.
+  intros dbg hp hpo hd u o u' HW K G H. pose proof (cinv_step2 dbg hp hpo hd HW u o u' K G H) as K'.
+  split; [exact K'|]. destruct K' as [[W _] C]. exact (comp_ok_components dbg u' W C).
+Qed.
+Check C05_components_step2 : forall dbg hp hpo hd u o u', HostWf hp hpo hd ->
+  CInv dbg u -> step_gate2 hp hpo hd u o u' -> apply_op dbg hp hpo hd u o = Some u' ->
+  CInv dbg u' /\ components_clean dbg u'.
+Print Assumptions C05_components_step2.
+
+(* ---- every record reachable by parse, join and gated steps.  CReach dbg hp hpo hd (Proofs/C05_CompReach.v):
+   parse without base; parse against a reached base b with base_ok b = true; a step of any of the 19 mutators
+   with op_valid and step_gate2.  It is a subset of Reachable (C05_reach_sub).  This is the property text of C05
+   for the component clauses on all histories outside the explicit known classes; the unrestricted statements
+   C05_components_statement / C05_history_sharp_statement above stay stated, not proved: no counter-witness on
+   the repaired code is known, but the invariant needs wf_b, which the records of the open defects
+   (F-C02-2/-3/-4/-8, F-C03-5, F-C06-5) need not satisfy. *)
+Theorem C05_components_reach : forall dbg hp hpo hd u, HostWf hp hpo hd ->
+  CReach dbg hp hpo hd u -> wfh u /\ components_clean dbg u.
+Proof. intros dbg hp hpo hd u HW. exact (creach_components dbg hp hpo hd HW u). Qed.
+Check C05_components_reach : forall dbg hp hpo hd u, HostWf hp hpo hd ->
+  CReach dbg hp hpo hd u -> wfh u /\ components_clean dbg u.
+Print Assumptions C05_components_reach.
+
+Theorem C05_reach_sub : forall dbg hp hpo hd u, CReach dbg hp hpo hd u -> Reachable dbg hp hpo hd u.
+Proof. exact creach_reachable. Qed.
+Check C05_reach_sub : forall dbg hp hpo hd u, CReach dbg hp hpo hd u -> Reachable dbg hp hpo hd u.
+Print Assumptions C05_reach_sub.
+
+(* the hypotheses are met: (Proofs/C05_ParseEx.v) with the host model of C02's examples, which satisfies HostWf,
+   "http://u s:p@h.x/a/b?q" parses to a base with CInv and base_ok, and joining "../c d?r" gives
+   "http://u%20s:p@h.x/c%20d?r" with CInv and base_ok again;
+   and: parse "http://h.x/a/b?q"; path_segments_mut pop, push "c d"; quirks set_pathname "/x y<z";
+   quirks set_hostname "o.x"; quirks set_port "81"; join "../w v#f`" - every gate holds and the result is
+   "http://o.x:81/w%20v#f%60" *)
+Example C05_components_parse_inhabited : parse_cinv_example_stmt.
+Proof. exact parse_cinv_example. Qed.
+Example C05_components_reach_inhabited : creach_example_stmt.
+Proof. exact creach_example. Qed.
 
 (* ================= non-vacuity ================= *)
 Definition ex_hp (s : list N) : result host := Ok (HDomain s).
